@@ -24,6 +24,7 @@ def check(ctx, tier):
     obs += ctx.attempt(scanner.line_reader_split, ctx, "D-d", default=[])
     obs += twin.check_pairs(ctx, "D-d", "C06")
     obs += ctx.attempt(scanner.nt_token_table, ctx, "D-e", default=[])
+    obs += ctx.attempt(scanner.nt_document_table, ctx, "D-f", default=[])
     exceptions.apply(obs)
     return {"obs": obs, "floors": [Floor("find/rfind sites examined", n_s, 30), Floor("literal datatype table rows", len(o_t), 8)],
             "explanation": "Shape-of-the-code clauses of the hand-written N-Triples scanner: the language-tag sigil is '@' consistently in "
